@@ -10,7 +10,8 @@ import struct
 from harness import gen_values as gv
 from harness import valcodec as vc
 
-STREAMS = ['codec-valid', 'codec-large', 'codec-small-types', 'codec-malformed-values', 'codec-malformed-data']
+STREAMS = ['codec-valid', 'codec-large', 'codec-small-types', 'codec-malformed-values', 'codec-malformed-data',
+           'codec-limits', 'codec-mixed-variants']
 THEOREMS = ['Spec.decode_encode', 'C01_roundtrip', 'C01_roundtrip_valid', 'C01_roundtrip_conf', 'C01_roundtrip_checked', 'C01_marshal_arity']
 TRUSTED_BASE = [
     "CPython struct.pack/unpack_from, codecs utf-8/ascii, dict, zip/generators, int->float conversion: mirrored in "
@@ -26,7 +27,10 @@ ASSUMPTIONS = [
 ]
 RULE = ('type-directed: a signature from the DBus grammar (harness/gen_values.gen_types), spec values with boundary '
         'values favoured (plus a size/depth stream: arrays to 300 elements, strings to 70 000 bytes, signatures to 255, nesting 32+32), '
-        'values favoured, a random Python spelling (list/tuple/dbusOrder object, wrappers, bytearray, dict); every case '
+        'a fixed list of signatures AT the limits of the grammar (32 arrays, 32 structs, 255 characters; top level, in containers, '
+        'inferred inside variants), variants / a{sv} values holding containers of members of different classes (every pair '
+        'first class x later class, then random mixtures), '
+        'a random Python spelling (list/tuple/dbusOrder object, wrappers, bytearray, dict); every case '
         'is run at both byte orders and offsets 0..15 by the oracle and at 2 (byte order, offset) pairs by the model; '
         'distinct = distinct canonical JSON of (signature, values, offset, byte order); non-trivial = at least one value')
 
@@ -472,6 +476,40 @@ def stats_for(ctx, tys, pvs, svs=None):
         ctx.stat('spelling:dict')
 
 
+def signature_nestings(tys, svs):
+    """(deepest nesting of arrays, deepest nesting of structs / dict entries) within ONE signature - the signature of
+    the case itself or the content signature of a variant it holds (the limits of the specification are per signature)."""
+    sigs = [list(tys)]
+
+    def walk(ty, sv):
+        if isinstance(ty, str):
+            if ty == 'v':
+                sigs.append([sv[1]])
+                walk(sv[1], sv[2])
+        elif ty[0] == 'a':
+            for e in sv:
+                walk(ty[1], e)
+        elif ty[0] == '(':
+            for f, e in zip(ty[1], sv):
+                walk(f, e)
+        else:
+            walk(ty[1], sv[0])
+            walk(ty[2], sv[1])
+    for t, sv in zip(tys, svs):
+        walk(t, sv)
+    return (max(_type_nesting(t, 'a') for g in sigs for t in g), max(_type_nesting(t, '(') for g in sigs for t in g))
+
+
+def _type_nesting(ty, what):
+    if isinstance(ty, str):
+        return 0
+    here = 1 if (ty[0] == 'a') == (what == 'a') else 0
+    if ty[0] == 'a':
+        return here + _type_nesting(ty[1], what)
+    subs = ty[1] if ty[0] == '(' else (ty[1], ty[2])
+    return here + max(_type_nesting(f, what) for f in subs)
+
+
 def small_cases(rng, max_len, per_type):
     """Every valid single type of signature length <= max_len with boundary-flavoured values."""
     for ty in gv.all_types(max_len):
@@ -571,6 +609,58 @@ def run(ctx):
         ctx.stat('malformed-data-outcome:' + (r[1] if r[0] == 'err' else 'ok'))
         batch.append((sig, data, off, le, fdarg))
     check_unmarshal_batch(ctx, 'codec-malformed-data', batch)
+
+    # ---- the limits of the type grammar, always the same list of types: 32 nested arrays, 32 nested structs, both,
+    #      signatures of exactly 255 characters - at top level, inside containers, inferred inside variants
+    mbatch, ubatch, cert = [], [], []
+    for kind, tys, svs in gv.limit_cases(rng):
+        pvs, fds, expected = gv.spell_case(rng, tys, svs)
+        top, spelling = gv.top_spelling(rng, pvs)
+        ctx.stat('limits:' + kind)
+        for t, sv in zip(tys, svs):
+            gv.value_stats(t, sv, ctx.stat)
+        na, ns = signature_nestings(tys, svs)
+        if na > gv.MAX_ARRAY_NESTING or ns > gv.MAX_STRUCT_NESTING:
+            raise RuntimeError('limit case %s lies beyond the limits of the grammar' % kind)
+        ctx.stat('limits:array-nesting=%d' % na)
+        ctx.stat('limits:struct-nesting=%d' % ns)
+        pairs = [(True, rng.randrange(16)), (False, rng.randrange(16))]
+        run_valid_case(ctx, 'codec-limits', tys, svs, top, fds, expected, mbatch, ubatch, all_offsets, pairs, cert)
+    ctx.note('codec-limits: %d fixed signatures at the limits of the grammar (32 arrays, 32 structs, 255 characters), '
+             'offsets 0..15, both byte orders' % len(cert))
+    check_marshal_batch(ctx, 'codec-limits', mbatch)
+    check_unmarshal_batch(ctx, 'codec-limits', ubatch)
+    check_certified(ctx, 'codec-limits', cert)
+
+    # ---- variants (and a{sv} values) holding containers whose members are of different classes: a plain value
+    #      followed by typed wrappers / bools, wrappers of several classes, unrelated classes
+    mbatch, ubatch, cert = [], [], []
+    some_offsets = [0, 1, 2, 4, 7]
+
+    def mixed(tys, svs, pvs, offsets, top=None):
+        expected = [gv.expected_decoded(t, s) for t, s in zip(tys, svs)]
+        for t, s, p in zip(tys, svs, pvs):
+            gv.value_stats(t, s, ctx.stat)
+            gv.mixed_stats(t, s, p, ctx.stat)
+        pairs = [(rng.random() < 0.5, rng.randrange(16))]
+        run_valid_case(ctx, 'codec-mixed-variants', tys, svs, pvs if top is None else top, [], expected, mbatch, ubatch,
+                       offsets, pairs, cert)
+    matrix = gv.mixed_matrix()
+    for (t0, s0, p0), (t1, s1, p1) in matrix:          # every pair of classes, as a list and as the values of a dict
+        mixed(['v'], [('V', ('a', 'v'), [('V', t0, s0), ('V', t1, s1)])], [[p0, p1]], some_offsets)
+        mixed([('a', ('{', 's', 'v'))], [[('opts', ('V', ('a', ('{', 's', 'v')), [('a', ('V', t0, s0)), ('b', ('V', t1, s1))]))]],
+              [{'opts': {'a': p0, 'b': p1}}], some_offsets)
+    ctx.note('codec-mixed-variants: %d (class of first member, class of a later member) pairs, each as a list in a variant '
+             'and as a dict in an a{sv} value, then random mixtures' % len(matrix))
+    n = ctx.scale(quick=250, thorough=8000)
+    for _ in range(n):
+        context, tys, svs, pvs = gv.gen_mixed_case(rng)
+        ctx.stat('mixed-context:' + context)
+        top, spelling = gv.top_spelling(rng, pvs)
+        mixed(tys, svs, pvs, all_offsets, top)
+    check_marshal_batch(ctx, 'codec-mixed-variants', mbatch)
+    check_unmarshal_batch(ctx, 'codec-mixed-variants', ubatch)
+    check_certified(ctx, 'codec-mixed-variants', cert)
 
 
 def replay_case(ctx, case, stream):
